@@ -46,10 +46,16 @@ func run(arg []string) error {
 	}
 	args := rflag.Args()
 
+	var progArgs []string
+	if len(args) > 0 {
+		// The command line of the interpreted program starts at its path.
+		progArgs = args
+	}
 	i := interp.New(interp.Options{
 		GoPath:       build.Default.GOPATH,
 		BuildTags:    strings.Split(tags, ","),
 		Env:          os.Environ(),
+		Args:         progArgs,
 		Unrestricted: useUnrestricted,
 	})
 	if err := i.Use(stdlib.Symbols); err != nil {
